@@ -573,6 +573,23 @@ def check_C12(rep, scr, tier, seed):
         else:
             rep.violation('%s writes the static object "%s": the library\'s static storage is not bit-identical before and after the call' % (x.func, sname),
                           {'key': ('static', sname), 'property': 'C12', 'function': x.func, 'static': sname, 'case': x.to_json(), 'case_line': x.line(), 'impl_outcome': oi[x.id].raw})
+    # T2 (imports): C library functions that keep their result or state in hidden static storage; a call to one of them is
+    # mutable state across calls that the segment snapshot above cannot see (it lives in libc, not in the library)
+    HIDDEN_STATE = {'asctime', 'ctime', 'gmtime', 'localtime', 'strtok', 'wcstok', 'rand', 'srand', 'random', 'drand48', 'lrand48', 'tmpnam', 'tempnam',
+                    'ecvt', 'fcvt', 'gcvt', 'l64a', 'readdir', 'getpwnam', 'getpwuid', 'getgrnam', 'ttyname', 'ctermid', 'getlogin', 'ptsname', 'inet_ntoa',
+                    'crypt', 'hsearch', 'strsignal', 'mbrlen', 'mbrtowc', 'mblen', 'mbtowc'}
+    imports = {}
+    for o in sorted(os.listdir(impl + '/obj')):
+        rc_, out_, _ = vlib.sh(['nm', '-u', impl + '/obj/' + o])
+        for l in out_.split('\n'):
+            f = l.split()
+            if len(f) == 2 and f[1].split('@')[0] in HIDDEN_STATE: imports.setdefault(f[1].split('@')[0], []).append(o)
+    rep.extra['libc_hidden_state_imports'] = imports
+    rep.evals += 1
+    for fn, objs in imports.items():
+        rep.violation('%s calls the C library function %s(), which keeps its result/state in static storage shared by all threads' % (', '.join(objs), fn),
+                      {'key': ('import', fn), 'property': 'C12', 'function': ','.join(objs), 'import': fn,
+                       'how': 'nm -u on the objects compiled from the working tree; replay: call the entry point from two threads on different data (the schedule in which the second call runs between the first call\'s libc call and its copy-out shows the foreign result)'})
     for e in offending:
         f, name, size, sec = e
         if any(k == (f, name) for k in known_static):
@@ -1040,6 +1057,10 @@ def check_C18(rep, scr, tier, seed):
                         if 'set' in func: args = [(0, al), nb, val if w == 1 else (val * 0x0101 if w == 2 else val * 0x01010101), cnt, UNK]
                         else: args = [(0, al), cnt, UNK]
                         cases.append(vlib.Case('e%d' % n, func, [('L', blk)], args, {'cls': 'erase', 'w': w, 'cnt': cnt, 'al': al, 'val': args[2] if 'set' in func else 0, 'func': func, 'nb': nb}))
+                        if sz in (1, 8, 17, 64, 200) and al in (0, 3, 4):
+                            # the same request with the size of the whole object known to the library (BOS): no byte beyond the request may change
+                            n += 1; args2 = args[:-1] + [len(blk) - al]
+                            cases.append(vlib.Case('e%d' % n, func, [('L', blk)], args2, {'cls': 'erase', 'w': w, 'cnt': cnt, 'al': al, 'val': args[2] if 'set' in func else 0, 'func': func, 'nb': nb, 'bos': 'larger'}))
         for dmax in (1, 2, 3, 8, 31, 32, 33, 40, 64):
             for content in ('str', 'lead0', 'full'):
                 n += 1
@@ -1047,6 +1068,8 @@ def check_C18(rep, scr, tier, seed):
                 body = bytes(rng.choice(fam_copy.NARROW) for _ in range(k)) + (b'\0' if k < dmax else b'') + fam_copy.garbage(rng, max(dmax - k - 1, 0))
                 blk = body[:dmax] + b'\x7e' * 5
                 cases.append(vlib.Case('e%d' % n, 'strzero_s', [('L', blk)], [(0, 0), dmax, UNK], {'cls': 'erase', 'w': 1, 'cnt': dmax, 'al': 0, 'val': 0, 'func': 'strzero_s', 'nb': dmax, 'content': content}))
+                n += 1
+                cases.append(vlib.Case('e%d' % n, 'strzero_s', [('L', blk)], [(0, 0), dmax, len(blk)], {'cls': 'erase', 'w': 1, 'cnt': dmax, 'al': 0, 'val': 0, 'func': 'strzero_s', 'nb': dmax, 'content': content, 'bos': 'larger'}))
         oi, om = run_cases(rep, scr, impls[var], md, consts, cases, 'erase_' + var)
         for x in cases:
             a = oi.get(x.id); b = om.get(x.id); m = x.meta
@@ -1103,6 +1126,11 @@ def gen_alloc_inputs(consts):
     marks = ''.join(chr(0x300 + (i % 20)) for i in range(40))
     for mode in (0, 1):
         out.append(('wcsnorm-%d' % mode, 'wcsnorm_s', [('R', b'\x55' * (4 * 128)), ('R', W('a' + marks + 'é')), ('R', b'\xee' * 8)], [(0, 0), 128, (1, 0), mode, (2, 0), UNK], 0))
+    # the scratch buffer of wcsnorm_s is allocated when the decomposed length reaches 126: long inputs, with and without
+    # the length shrinking back across that threshold when recomposed
+    for tag, text in (('shrinks', '\u00e9' * 70), ('stays-long', '\u00e9' * 130), ('ascii', 'a' * 140), ('hangul', '\uac01' * 50)):
+        for mode in (0, 1):
+            out.append(('wcsnorm-scratch-%s-%d' % (tag, mode), 'wcsnorm_s', [('R', b'\x55' * (4 * 420)), ('R', W(text)), ('R', b'\xee' * 8)], [(0, 0), 420, (1, 0), mode, (2, 0), UNK], 0))
     return out
 
 def check_C20(rep, scr, tier, seed):
@@ -1210,6 +1238,16 @@ def gen_conv_cases(seed, tier, consts, loc):
                 pp = block_addr(2, 'R', len(wsrc)).to_bytes(8, 'little')
                 n[0] += 1; cs.append(vlib.Case('v%d' % n[0], 'wcsrtombs_s', [('R', ret8), ('R', fam_copy.garbage(rng, dmax)), ('R', wsrc), ('R', pp), ('R', b'\0' * 8)],
                     [(0, 0), (1, 0), dmax, (3, 0), ln, (4, 0), UNK], dict(cls='conv', func='wcsrtombs_s', loc=loc, op='wcsrtombs', chars=s, dmax=dmax, len=ln, kind='ok', valid=True, objelems=dmax)))
+    # a conversion state that is not initial on entry (UTF-8 only): a multibyte character split between mbrtowc and mbsrtowcs_s,
+    # then a second string converted with the same state
+    if loc == 'u8':
+        for first in (0xe9, 0x20ac, 0x10348):
+            fb = chr(first).encode('utf-8')
+            for k in range(1, len(fb)):
+                for rest in ([], [0x61], [0x20ac, 0x62]):
+                    s1 = fb + mb(rest) + b'\0'; s2 = b'xyz\0'
+                    n[0] += 1; cs.append(vlib.Case('v%d' % n[0], 'mbsrtowcs_seq', [('R', fam_copy.garbage(rng, 4 * 8)), ('R', fam_copy.garbage(rng, 4 * 8)), ('R', s1), ('R', s2)],
+                                                   [(0, 0), (1, 0), 8, (2, 0), k, (3, 0), 7, UNK], dict(cls='conv', func='mbsrtowcs_seq', loc=loc, op='seq', kind='seq', first=first, k=k, rest=rest)))
     for bad in (invalid_mb if loc == 'u8' else [b'\x80', b'\xe9']):
         for pre in ([], [0x61]):
             src = mb(pre) + bad + b'a\0'
@@ -1245,6 +1283,14 @@ def check_C15(rep, scr, tier, seed):
                 fails = []
                 if a.fault != '-': fails.append(('fault', 'faulted at %s' % a.fault))
                 else:
+                    if m['op'] == 'seq':
+                        v = [int(t) for t in a.ret.split(',')]
+                        if v[0] != 0 or v[2] != 0 or v[1] != v[5] or v[3] != v[6] or v[4] != v[7] or not v[8] or not v[9]:
+                            fails.append(('state-sequence', 'mbrtowc(%d of %d bytes of U+%04X) ; mbsrtowcs_s(rest) ; mbsrtowcs_s("xyz") with one state gave rc/count %s,%s then %s,%s (state initial: %s); the C library gives counts %s then %s (state initial: %s), results equal: %s %s'
+                                          % (m['k'], len(chr(m['first']).encode('utf-8')), m['first'], v[0], v[1], v[2], v[3], v[4], v[5], v[6], v[7], v[8], v[9])))
+                        for kind, text in fails:
+                            rep.violation('%s(%s,%s): %s' % (m['func'], locname, var, text), {'key': (m['func'], kind, loc), 'property': 'C15', 'function': 'mbsrtowcs_s', 'locale': locname, 'failure': kind, 'case': x.to_json(), 'case_line': x.line(), 'impl_outcome': a.raw})
+                        continue
                     rc = int(a.ret); retval = int.from_bytes(a.blocks[0][:8], 'little')
                     if m['op'] in ('mbstowcs', 'wcstombs', 'mbsrtowcs', 'wcsrtombs') and m['kind'] in ('ok', 'query') and m['valid']:
                         s = m['chars']; unit = 4 if m['op'] in ('mbstowcs', 'mbsrtowcs') else 1
@@ -1343,6 +1389,10 @@ def gen_uni_cases(seed, tier, g, rng):
     # long runs of marks (combining-sequence growth beyond the stack buffer)
     for n in (9, 10, 11, 20, 40):
         out.append(('long-marks', [0x61] + [rng.choice(marks) for _ in range(n)]))
+    # long runs of marks of one combining class (stability of the reordering beyond 8-bit positions), cycling three marks of class 230
+    for n in (255, 256, 257, 300, 700):
+        out.append(('long-same-class', [0x78] + [0x300 + (i % 3) for i in range(n)]))
+        out.append(('long-two-classes', [0x78] + [(0x300 + (i % 3)) if i % 5 else 0x323 for i in range(n)]))
     return out
 
 def check_C17(rep, scr, tier, seed):
@@ -1805,6 +1855,18 @@ def c10_cases(seed, tier):
             for slen in sorted(set([max(len(s), 1), len(s) + 2] + ([len(s) - 1] if len(s) > 1 else []))):
                 for f in ('strspn_s', 'strcspn_s', 'strpbrk_s', 'strstr_s', 'strcasestr_s'):
                     add(f, D, S, [(1, 0), dmax, (2, 0), slen, (0, 0), UNK, UNK], d=d, s=s, dmax=dmax, slen=slen)
+    # searches: every haystack over {a,b} (a third letter at one end in thorough) against every short needle: partial matches that
+    # overlap the real occurrence ("aab" in "aaab"), matches ending exactly at dmax, needles longer than the rest
+    hl, nl = (6, 3) if tier == 'quick' else (8, 4)
+    for k in range(1, hl + 1):
+        for hay in itertools.product((0x61, 0x62), repeat=k):
+            for j in range(1, nl + 1):
+                for nee in itertools.product((0x61, 0x62), repeat=j):
+                    d = list(hay); sx = list(nee); D = d + [0] + [0x61, 0x62, 0]; S = sx + [0]
+                    for dmax in (len(d) + 1, len(d)):
+                        for f in ('strstr_s', 'strcasestr_s'):
+                            add(f, D, S, [(1, 0), dmax, (2, 0), len(sx), (0, 0), UNK, UNK], d=d, s=sx, dmax=dmax, slen=len(sx), cls='search')
+                    add('wcsstr_s', fam_copy.enc(d + [0, 0x61, 0], 4), fam_copy.enc(sx + [0], 4), [(1, 0), len(d) + 1, (2, 0), len(sx), (0, 0), UNK, UNK], d=d, s=sx, dmax=len(d) + 1, slen=len(sx), cls='search')
     # object size of src known to the library and smaller than slen: a constraint violation; the operands must stay as they are
     for d, s in pairs[:60]:
         if len(s) < 2 or not d: continue
